@@ -17,13 +17,13 @@ class CaseResult:
     __slots__ = ("name", "lines", "log", "rc", "san", "diverge", "envbad", "mon", "cov", "end", "replay_ok")
 
 
-def run_case(name, lines, harness=None):
+def run_case(name, lines, harness=None, leaks=False):
     """execute one scenario on the implementation and replay its log through the Lean model + monitors"""
     os.makedirs(SCRATCH, exist_ok=True)
     fd, path = tempfile.mkstemp(suffix=".scn", dir=SCRATCH)
     with os.fdopen(fd, "w") as f:
         f.write("\n".join(lines) + "\n")
-    env = dict(os.environ, ASAN_OPTIONS="detect_leaks=0:abort_on_error=0", UBSAN_OPTIONS="print_stacktrace=0")
+    env = dict(os.environ, ASAN_OPTIONS="detect_leaks=%d:abort_on_error=0" % (1 if leaks else 0), UBSAN_OPTIONS="print_stacktrace=0")
     try:
         a = subprocess.run([harness or HARNESS, path], stdout=subprocess.PIPE, stderr=subprocess.PIPE, text=True, timeout=60, env=env)
         out, err, rc = a.stdout, a.stderr, a.returncode
